@@ -278,7 +278,17 @@ var c18Garbage = []string{
 var c18Keyword = regexp.MustCompile(`open|close|price|balance|include|@performance|@accrue|daily|weekly|monthly|quarterly|yearly|once`)
 
 func c18Break(r *rand.Rand, text string) (broken, how string, byConstruction bool) {
-	switch r.Intn(6) {
+	switch r.Intn(7) {
+	case 6:
+		// a multi-line balance assertion whose last line is cut short
+		for _, m := range syn.Mutations {
+			if m.Name == "cut-balance-subline" {
+				if b := m.F(r, text, "", 0); b != text {
+					return b, "cut-balance-subline", false
+				}
+			}
+		}
+		fallthrough
 	case 5:
 		// the text ends in the middle of a keyword
 		if ms := c18Keyword.FindAllStringIndex(text, -1); len(ms) > 0 {
